@@ -27,6 +27,7 @@ type Clause struct {
 	File   string
 	Line   int
 	After  bool // assert/assign bound to a call site: after the call returned (default: before)
+	Optional bool // "#?" site clause: binds to every matching statement, possibly none
 	Hypothesis bool // requires clause that states a hypothesis of the property (input/environment): assumed at entry, not checked at call sites, reported as assumption
 }
 
@@ -543,7 +544,15 @@ func (cs *Contracts) parseFile(fname, pkg, prefix string) {
 					r = strings.TrimSpace(r[i:])
 				}
 			}
+			variantText := r
+			if kind == "decreases" {
+				// decreases T: T is not negative at the head of an iteration and smaller at its end
+				r = "0 <= iterold(" + r + ") && (" + r + ") < iterold(" + r + ")"
+			}
 			parse(r)
+			if kind == "decreases" {
+				c.Text = variantText
+			}
 			if kind == "invariant" {
 				cur.Invs = append(cur.Invs, c)
 			} else {
@@ -570,6 +579,12 @@ func (cs *Contracts) parseFile(fname, pkg, prefix string) {
 				if strings.HasPrefix(r, "#*") {
 					// every statement whose source line contains the text
 					c.Occ = -1
+					r = r[2:]
+				} else if strings.HasPrefix(r, "#?") {
+					// every such statement, and there need not be any (a clause about
+					// statements that must not appear in this function)
+					c.Occ = -1
+					c.Optional = true
 					r = r[2:]
 				} else if strings.HasPrefix(r, "#") {
 					fmt.Sscanf(r[1:], "%d", &c.Occ)
